@@ -37,6 +37,21 @@ func (l *countingLoader) Exists(name string) bool { return l.content[name] != 0 
 
 type tsLoader struct{ countingLoader }
 
+// fsLoader: the timestamp-aware loader as a real FileSystemLoader on a scratch directory (its Load calls counted);
+// put / delete write and remove files, the model's time stamps become file modification times
+type fsLoader struct {
+	inner *twig.FileSystemLoader
+	dir   string
+	loads map[string]int
+}
+
+func (l *fsLoader) Load(name string) (string, error) {
+	l.loads[name]++
+	return l.inner.Load(name)
+}
+func (l *fsLoader) Exists(name string) bool                    { return l.inner.Exists(name) }
+func (l *fsLoader) GetModifiedTime(name string) (int64, error) { return l.inner.GetModifiedTime(name) }
+
 func (l *tsLoader) GetModifiedTime(name string) (int64, error) {
 	if v, ok := l.content[name]; !ok || v == 0 {
 		return 0, fmt.Errorf("%w: %s", twig.ErrTemplateNotFound, name)
@@ -65,6 +80,7 @@ type CCase struct {
 	Key  string   `json:"key"`
 	Tags []string `json:"tags"`
 	Ops  []COp    `json:"ops"`
+	FS   bool     `json:"fs"` // loader 2 is a FileSystemLoader on a scratch directory
 }
 
 func newCounting() countingLoader {
@@ -75,17 +91,37 @@ type cacheWorld struct {
 	e  *twig.Engine
 	l1 *countingLoader
 	l2 *tsLoader
+	fs *fsLoader
 }
 
-func newCacheWorld() *cacheWorld {
+func newCacheWorld(fs bool) *cacheWorld {
 	w := &cacheWorld{e: twig.New()}
 	c1 := newCounting()
 	w.l1 = &c1
-	w.l2 = &tsLoader{newCounting()}
 	w.e.RegisterLoader(w.l1)
+	if fs {
+		dir, err := os.MkdirTemp("", "verif-c15-")
+		if err != nil {
+			panic("harness: " + err.Error())
+		}
+		inner := twig.NewFileSystemLoader([]string{dir})
+		inner.SetSuffix("")
+		w.fs = &fsLoader{inner: inner, dir: dir, loads: map[string]int{}}
+		w.e.RegisterLoader(w.fs)
+		return w
+	}
+	w.l2 = &tsLoader{newCounting()}
 	w.e.RegisterLoader(w.l2)
 	return w
 }
+
+func (w *cacheWorld) close() {
+	if w.fs != nil {
+		os.RemoveAll(w.fs.dir)
+	}
+}
+
+var fsEpoch = time.Unix(1700000000, 0)
 
 // apply executes one operation; served: version, 0 not found, -1 n/a, -2 other error
 func (w *cacheWorld) apply(op *COp) (served int, msg string) {
@@ -118,6 +154,13 @@ func (w *cacheWorld) apply(op *COp) (served int, msg string) {
 	case "put":
 		if op.I == 1 {
 			w.l1.content[op.N] = op.V
+		} else if w.fs != nil {
+			p := w.fs.dir + "/" + op.N
+			if err := os.WriteFile(p, []byte(fmt.Sprintf("%s:%d", op.N, op.V)), 0o644); err != nil {
+				return -2, "harness: " + err.Error()
+			}
+			mt := fsEpoch.Add(time.Duration(op.Mt) * time.Second)
+			os.Chtimes(p, mt, mt)
 		} else {
 			w.l2.content[op.N] = op.V
 			w.l2.mtime[op.N] = op.Mt
@@ -125,6 +168,8 @@ func (w *cacheWorld) apply(op *COp) (served int, msg string) {
 	case "delete":
 		if op.I == 1 {
 			w.l1.content[op.N] = 0
+		} else if w.fs != nil {
+			os.Remove(w.fs.dir + "/" + op.N)
 		} else {
 			w.l2.content[op.N] = 0
 		}
@@ -140,7 +185,13 @@ func (w *cacheWorld) apply(op *COp) (served int, msg string) {
 
 func (w *cacheWorld) observe(served int) CObs {
 	o := CObs{Served: served}
-	for _, l := range []map[string]int{w.l1.loads, w.l2.loads} {
+	l2loads := map[string]int{}
+	if w.fs != nil {
+		l2loads = w.fs.loads
+	} else {
+		l2loads = w.l2.loads
+	}
+	for _, l := range []map[string]int{w.l1.loads, l2loads} {
 		m := map[string]int{}
 		for k, v := range l {
 			m[k] = v
@@ -194,7 +245,8 @@ func describe(op *COp) string {
 
 func runCacheHist(c *CCase, rec *bufio.Writer, traceNo int) (res Result) {
 	res = Result{Prop: c.Prop, Key: c.Key, Tags: c.Tags, Pass: true, Runs: len(c.Ops)}
-	w := newCacheWorld()
+	w := newCacheWorld(c.FS)
+	defer w.close()
 	var trail []string
 	defer func() {
 		if p := recover(); p != nil {
